@@ -66,6 +66,8 @@ def rejection_key(r):
         return "wire:Decode:%s" % e.get("tname")
     if ev == "Prefix":
         return "wire:Prefix:%s" % e.get("tname", "?")
+    if ev == "BigColumn":
+        return "wire:BigColumn:%s" % e.get("tname", "?")
     return "wire:" + str(ev)
 
 
@@ -78,6 +80,9 @@ def describe(r):
         return "block of %s (%d rows, revision %s): encodeErr=%r typedErr=%r paths=%s auto=%s" % (
             [c["tname"] for c in e["cols"]], e["rows"], e["rev"], e.get("encodeErr"), e["typed"].get("err"),
             [(a["mode"], a["equal"]) for a in e.get("alts", [])], {k: v for k, v in e.get("auto", {}).items() if k in ("err", "inferError", "reencodeEqual")})
+    if e.get("ev") == "BigColumn":
+        return "column %s of %d rows (%d bytes) decoded and encoded again: err=%r rows read %s, digests %s -> %s (rows %s -> %s)" % (
+            e.get("tname"), e.get("rows"), e.get("bytes"), e.get("err"), e.get("rowsOut"), e.get("inSum"), e.get("outSum"), e.get("rowsSumIn"), e.get("rowsSumOut"))
     if e.get("ev") == "Decode":
         return "DecodeColumn(%s, %d rows) of bytes %s...: err=%r reusedErr=%r" % (e.get("tname"), e.get("rows"), e.get("bytes", [])[:12], e.get("err"), e.get("reusedErr"))
     return None
